@@ -481,6 +481,19 @@ func durationString(d int64) string {
 // thread's previous scheduling point (all operations in between are on objects
 // that have their own scheduling points once shared).
 func (w *World) syncYield(t *Thread, obj interface{}, what string) {
+	if v, ok := w.ext["preemptonly"]; ok {
+		if p, isCell := obj.(*Value); isCell {
+			if !v.(map[interface{}]bool)[p] {
+				return // not one of the objects the harness explores interleavings on
+			}
+			w.yield(t, what)
+			return
+		}
+	}
+	if _, ft := w.ext["firsttouch"]; !ft {
+		w.yield(t, what)
+		return
+	}
 	var m map[interface{}]map[int]bool
 	if v, ok := w.ext["synctouch"]; ok {
 		m = v.(map[interface{}]map[int]bool)
